@@ -47,7 +47,9 @@ RULE = ('get_modularity: all digraphs n<=3 (loops, sampled weights) x all labeli
         'to a power of two (exact run lines) and arbitrary weights (spec lines) x {dugue,newman,potts} x '
         'resolutions x tolerances (no zero tolerance where float32 is inexact) x {square, bipartite, '
         'force_bipartite}, plus a degenerate stream (one edge, isolated node, two components, empty, unknown kind, '
-        'stored zeros); corpus/C06.jsonl first. Non-trivial: the metric case has a '
+        'stored zeros); every matrix in a container dtype that holds its values (bool, int8, uint8, int16, int32, '
+        'int64, float32, float64) plus a dtype stream (bool with reciprocal pairs, narrow integers whose sums wrap); '
+        'corpus/C06.jsonl first. Non-trivial: the metric case has a '
         'cluster with two nodes and a stored entry; the kernel / fit case moves at least one node. '
         'distinct = distinct (entry point, input, options)')
 ASSUMPTIONS = ['scipy sparse products / `+=` / bmat / np.unique are the substrate (monitored through the outputs)',
